@@ -141,6 +141,17 @@ def shrink(case):
             yield dict(case, sps=sps[:i] + sps[i + 1:], damages=nd)
 
 
+def _read_cache_file(path):
+    import gzip
+
+    fn = os.path.join(path, ".signac", "statepoint_cache.json.gz")
+    if not os.path.exists(fn):
+        return None, None
+    with open(fn, "rb") as f:
+        raw = f.read()
+    return json.loads(gzip.decompress(raw).decode()), raw
+
+
 def classify(ws):
     """Independent classification of every id-named directory: (kind, value, payload id)."""
     out = {}
@@ -360,8 +371,31 @@ def run_case(case, ctx):
         except Exception as e:  # noqa: BLE001
             rep = ["EXC:" + exc_name(e)]
             oracle.append("repair() raised %s" % exc_name(e))
+        # the session that repaired (or failed to) goes on: update_cache() must not persist anything wrong, and a
+        # fresh session must still never hand out a state point whose hash differs from the id
+        try:
+            uc = fresh.update_cache()
+            uc_tok = "none" if uc is None else str(uc)
+        except JobsCorruptedError as e:
+            uc_tok = "JobsCorruptedError"  # which id the thread pool reports first is not determined
+        except Exception as e:  # noqa: BLE001
+            uc_tok = "EXC:" + exc_name(e)
         cls2 = classify(ws)
         bad2 = damaged_ids(cls2)
+        post_toks = []
+        for i in sorted(cls2):
+            try:
+                v = plain(signac.Project(path).open_job(id=i).statepoint())
+                post_toks.append("ok=" + ref_id(v))
+                if ref_id(v) != i:
+                    oracle.append("after repair() and update_cache() in one session, a fresh open_job(id=%s).statepoint() returned %r "
+                                  "whose hash is %s" % (i, v, ref_id(v)))
+            except JobsCorruptedError:
+                post_toks.append("JobsCorruptedError=" + i)
+            except KeyError:
+                post_toks.append("KeyError")
+            except Exception as e:  # noqa: BLE001
+                post_toks.append("JobsCorruptedError=" + i if isinstance(e, ValueError) else "EXC:" + exc_name(e))
         after = snapshot_payload(ws)
         # payload files unchanged (as a collection of directory contents)
         if sorted(map(lambda x: sorted(x.items()), before.values())) != sorted(map(lambda x: sorted(x.items()), after.values())):
@@ -388,9 +422,14 @@ def run_case(case, ctx):
                 owner = [o for o, pp in orig_payload_owner.items() if pp == p]
                 if owner and owner[0] != i and cls2[i][0] == "valid" and tagged(cls2[i][1]) != tagged(sps[p - 1]):
                     oracle.append("KNOWN[F-9b] after repair job %s validates but holds the document/files of job %s" % (i, owner[0]))
-        mops += ["session", "order " + " ".join("S" + hx(n) for n in listing if n in cls), "repair"]
+        mops += ["session", "order " + " ".join("S" + hx(n) for n in listing if n in cls), "repair", "ucache"]
         itoks += ["ok:%s:%s" % (",".join(sorted(ids)) if case["cache"] else "-", ",".join(sorted(cls))), "ok",
-                  "repair=%s;%s" % (",".join(rep), ws_token(cls2))]
+                  "repair=%s;%s" % (",".join(rep), ws_token(cls2)), None]
+        cache_after, _ = _read_cache_file(path)
+        itoks[-1] = "%s:%s:%s" % (uc_tok, "-" if cache_after is None else ",".join(sorted(cache_after)), ",".join(sorted(cls2)))
+        for i, tok in zip(sorted(cls2), post_toks):
+            mops += ["session", "openid S" + hx(i)]
+            itoks += ["ok:%s:%s" % ("-" if cache_after is None else ",".join(sorted(cache_after)), ",".join(sorted(cls2))), tok]
     finally:
         ctx.cleanup(path)
     key = json.dumps([case["sps"], case["damages"], case["cache"]], sort_keys=True) if bad else None
